@@ -91,11 +91,12 @@ def run_driver(name, params, workdir):
 
     workdir = Path(workdir)
     mw = params.get("max_workers")
+    progress = bool(params.get("progress"))
     cfg = Configuration.create(rmin=[0.05, 0.2], rmax=[0.5, 1.0], unit="deg", edges=EDGES, max_workers=params.get("cfg_workers"))
 
     if name == "create":
         cols = make_table(params["seed"], params["n"])
-        kw = dict(ra_name="ra", dec_name="dec", weight_name="w", redshift_name="z", chunksize=params["chunk"], max_workers=mw)
+        kw = dict(ra_name="ra", dec_name="dec", weight_name="w", redshift_name="z", chunksize=params["chunk"], max_workers=mw, progress=progress)
         if params["mode"] == "centres":
             kw["patch_centers"] = AngularCoordinates(np.deg2rad(CENTRES_DEG))
         elif params["mode"] == "generate":
@@ -112,7 +113,7 @@ def run_driver(name, params, workdir):
 
             g = BoxRandoms(19.0, 25.0, 4.0, 6.0, weights=cols["w"], redshifts=cols["z"], seed=params["seed"] % 1000)
             cat = Catalog.from_random(workdir / "out", g, params["n"], patch_centers=AngularCoordinates(np.deg2rad(CENTRES_DEG)),
-                                      chunksize=params["chunk"], max_workers=mw)
+                                      chunksize=params["chunk"], max_workers=mw, progress=progress)
         if params["mode"] == "generate":
             # generated centres are not reproducible between runs by documentation: structural digest only
             # (all records once, every record nearest to its patch's reported centre)
@@ -139,17 +140,17 @@ def run_driver(name, params, workdir):
         return catalog_digest(Catalog(base / "nometa", max_workers=mw))
     cats_ = {k: Catalog(base / k, max_workers=mw) for k in ("ref", "unk", "rr", "ur")}
     if name == "trees":
-        cats_["ref"].build_trees(EDGES, closed="right", max_workers=mw)
-        cats_["unk"].build_trees(None, max_workers=mw)
+        cats_["ref"].build_trees(EDGES, closed="right", max_workers=mw, progress=progress)
+        cats_["unk"].build_trees(None, max_workers=mw, progress=progress)
         return dict(ref=trees_digest(cats_["ref"]), unk=trees_digest(cats_["unk"]))
     if name == "cross":
-        cfs = yaw.crosscorrelate(cfg, cats_["ref"], cats_["unk"], ref_rand=cats_["rr"], unk_rand=cats_["ur"], max_workers=mw)
+        cfs = yaw.crosscorrelate(cfg, cats_["ref"], cats_["unk"], ref_rand=cats_["rr"], unk_rand=cats_["ur"], max_workers=mw, progress=progress)
         return dict(cf=corrfunc_digest(cfs))
     if name == "auto":
-        cfs = yaw.autocorrelate(cfg, cats_["ref"], cats_["rr"], max_workers=mw)
+        cfs = yaw.autocorrelate(cfg, cats_["ref"], cats_["rr"], max_workers=mw, progress=progress)
         return dict(cf=corrfunc_digest(cfs))
     if name == "hist":
-        hd = HistData.from_catalog(cats_["ref"], cfg, max_workers=mw)
+        hd = HistData.from_catalog(cats_["ref"], cfg, progress=progress, max_workers=mw)
         return dict(data=h(hd.data.tobytes()), samples=h(hd.samples.tobytes()))
     if name == "io":
         # result I/O: written by root, read back and broadcast to every rank
@@ -180,6 +181,7 @@ def reference_server(conn):
 
     warnings.simplefilter("ignore")
     os.environ["YAW_NUM_THREADS"] = "1"
+    os.dup2(os.open(os.devnull, os.O_WRONLY), 2)  # progress bars go to stderr
     while True:
         try:
             cmd, args = conn.recv()
